@@ -36,7 +36,7 @@ type Case struct {
 	Script []Op  `json:"script"`
 }
 
-var keys = []string{"a", "b", "c", "d", "e", "ab", "abc"}
+var keys = []string{"a", "b", "c", "d", "e", "ab", "abc", ""}
 
 // ---------------------------------------------------------------------------
 // Abstract model: an ordered list, least recently used first.
@@ -353,7 +353,7 @@ var opGen = rapid.Custom(func(t *rapid.T) Op {
 	return Op{
 		Kind: rapid.SampledFrom([]string{"set", "set", "set", "set", "set", "set", "set", "set", "get", "get", "get", "get", "del", "del", "clear", "stats"}).Draw(t, "kind"),
 		Key:  rapid.SampledFrom(keys).Draw(t, "key"),
-		Val:  rapid.SliceOfN(rapid.Byte(), 0, 6).Draw(t, "val"),
+		Val:  rapid.OneOf(rapid.SliceOfN(rapid.Byte(), 0, 6), rapid.Just([]byte(nil)), rapid.Just([]byte{})).Draw(t, "val"),
 	}
 })
 
